@@ -407,7 +407,7 @@ def p_minmax_found(inp):
 def known_match(finding, failure):
     """matcher for findings of the form {predicates, slope_below}: root()/minmax() giving up ('Too many
     iterations') on a bracket with a sign change and a flat stretch.  (The finding of that form was repaired by the
-    fix: commit that makes the fallback bisect every other time; findings.d/C12.json lists nothing now.)"""
+    fix: commit that makes the fallback bisect every other time; known_findings.json (property C12) lists nothing now.)"""
     if failure.get('predicate') not in finding.get('predicates', []):
         return False
     det = failure.get('detail')
